@@ -9,9 +9,10 @@
 (* (R) reference machine: a stack machine executing a program of DiscreteFactorTable     *)
 (*     operations, one action per operation of the real class:                           *)
 (*        Load (constructor)  Scale (__mul__)  And (product)  Or (mix)  Marg (marginalize)*)
+(*        Div (__truediv__)  Normalize (normalize = self / Z)                            *)
 (*     with the loops of the code (first-wins de-duplication, dropped zero rows,          *)
 (*     matched / unmatched bookkeeping, resulting row and key order).                    *)
-(* (P) JoinLaw, JoinCommutes, IndependentProduct, MixLaw, MargLaw, StackWellFormed,      *)
+(* (P) JoinLaw, JoinCommutes, IndependentProduct, MixLaw, MargLaw, NormLaw, StackWellFormed,*)
 (*     ExponentClasses, ClassOfProduct.                                                  *)
 (*     Extreme weight classes: every table on the stack has a symbolic decimal exponent   *)
 (*     class (xstack): weights are mantissa * 10^class.  Normalised results are decided   *)
@@ -50,7 +51,7 @@ Instr(op) == [op |-> op, k |-> 0, n |-> 1, d |-> 1, e |-> 0, keep |-> <<>>]
 
 \* ------------------------------------------------------------------ machine
 NoNote == [op |-> "init", samevars |-> FALSE, keyorder |-> FALSE, disjoint |-> FALSE, anyempty |-> FALSE,
-           zerogroup |-> FALSE]
+           zerogroup |-> FALSE, zerototal |-> FALSE]
 
 Init ==
   /\ pc = 1 /\ note = NoNote
@@ -125,7 +126,18 @@ Marg  == /\ Running /\ Cur.op = "marg" /\ Depth >= 1
          /\ stack' = Pop1Push(RefMarg(A2, Cur.keep)) /\ xstack' = XPop1Push(X2)
          /\ note' = [UnNote("marg") EXCEPT !.zerogroup = ZeroGroup(A2, Cur.keep)]
 
-Next == /\ (Load \/ Scale \/ And \/ Or \/ Marg)
+\* __truediv__: every logit - log((n / d) * 10^e)
+Div   == /\ Running /\ Cur.op = "div" /\ Depth >= 1
+         /\ stack' = Pop1Push(RefScale(A2, Cur.d, Cur.n)) /\ xstack' = XPop1Push(X2 - Cur.e)
+         /\ note' = UnNote("div")
+\* normalize() = self / self.Z: the same rows with weights w / Total, which sum to one (class 0).  A table
+\* without any weight cannot be normalised (Z = 0): left as it is and flagged.
+RefNorm(t) == IF Total(t) > 0 THEN Tab(t.vars, t.rows, Total(t)) ELSE t
+Normalize == /\ Running /\ Cur.op = "norm" /\ Depth >= 1
+         /\ stack' = Pop1Push(RefNorm(A2)) /\ xstack' = XPop1Push(0)      \* (a table without weight is in every class)
+         /\ note' = [UnNote("norm") EXCEPT !.zerototal = (Total(A2) = 0)]
+
+Next == /\ (Load \/ Scale \/ And \/ Or \/ Marg \/ Div \/ Normalize)
         /\ pc' = pc + 1 /\ UNCHANGED <<iid, src, prog, top>>
 Spec == Init /\ [][Next]_vars
 
@@ -170,12 +182,19 @@ MargLaw ==
      LET x == RefMarg(A2, Cur.keep) IN
      /\ Total(x) = Total(A2)
      /\ \A g \in MargAsgs(A2, Range(Cur.keep)) : WOf(x, g) = MargWeight(A2, Range(Cur.keep), g)
+\* the normalised table has the same rows with proportional weights that sum to one
+NormLaw ==
+  (Before("norm") /\ Depth >= 1 /\ Total(A2) > 0) =>
+     LET x == RefNorm(A2) IN
+     /\ Total(x) = x.den /\ x.vars = A2.vars /\ NRows(x) = NRows(A2)
+     /\ \A i \in 1..NRows(x) : x.rows[i].vals = A2.rows[i].vals /\ x.rows[i].w * A2.den * Total(A2) = A2.rows[i].w * x.den * A2.den
 \* instance filter / closure: everything on the stack is a well-formed table that is a function,
 \* and mixtures are only requested over equal variable sets
 StackWellFormed ==
   /\ \A i \in 1..Depth : WellFormedTab(stack[i]) /\ DupFree(stack[i])
   /\ (Before("or") /\ Depth >= 2) => VarSet(A1) = VarSet(A2) \/ NRows(A1) = 0 \/ NRows(A2) = 0
   /\ Running => Depth >= (IF Cur.op \in {"and", "or"} THEN 2 ELSE IF Cur.op = "load" THEN 0 ELSE 1)
+  /\ Before("div") => Cur.n > 0
 \* instance filter for the extreme weight classes: one class per table on the stack; every table that
 \* is loaded has |class| <= 400 (up to 250 the weights themselves are floats, 3e250 and 1e-250 exist, and may
 \* be given as probs=; beyond that the harness gives logits= / scores= directly), scaling factors are floats;
@@ -187,6 +206,8 @@ ExponentClasses ==
   /\ (Before("scale") /\ Depth >= 1) => Cur.e >= -250 /\ Cur.e <= 250
   /\ (Before("or") /\ Depth >= 2 /\ NRows(A1) > 0 /\ NRows(A2) > 0) => X1 = X2 /\ OrdinaryClass(X1)
   /\ (Before("marg") /\ Depth >= 1) => OrdinaryClass(X2)
+  /\ (Before("norm") /\ Depth >= 1) => OrdinaryClass(X2)       \* Z = exp(logsumexp(logits)) is a float
+  /\ (Before("div") /\ Depth >= 1) => Cur.e >= -250 /\ Cur.e <= 250
 \* the normalised product does not depend on the classes: a product of the same mantissa tables in
 \* class 0 has the same positive function (RefJoin never looks at xstack) and the class of the
 \* result is the sum - stated so that a change of the bookkeeping above is caught
